@@ -10,10 +10,10 @@ with `expand_empty_elements = true`: the model expands `empty` first (`expand`).
 `bad` stands for an `Err(_)` returned by the tokenizer (syntax error, mismatched end tag).
 
 The four nested loops are written as in the Rust code, one fuelled function per loop; each
-iteration costs one unit of the loop's own fuel. A loop that has no `Event::Eof` arm keeps reading
-`Eof` for ever: in the model it burns its fuel on the empty list and returns `diverge`.
-Fuel `> (expand evs).length` is always enough for a loop that does terminate
-(Lemmas/Jacoco.lean, Props/C10.lean).
+iteration costs one unit of the loop's own fuel. Since commit 34e25d5 every nested loop has an
+`Event::Eof` arm (end of input inside an element ⇒ `ParserError::Parse`), so every iteration
+either consumes an event or returns: `diverge` is only the outcome of too little fuel, and fuel
+`> (expand evs).length` is always enough (`C10_always_terminates`, Props/C10.lean).
 
 Attribute values are the raw bytes between the quotes. `get_xml_attribute` iterates the
 attributes with quick-xml's duplicate check switched on (an attribute whose key was already seen is
@@ -241,10 +241,10 @@ def commitLine (acc : SrcAcc) (a : LineAcc) : Except ErrKind SrcAcc :=
 
 /-! ### the loops -/
 
-/-- `parse_jacoco_report_sourcefile` (no `Eof` arm) -/
+/-- `parse_jacoco_report_sourcefile` (`Eof` ⇒ `Parse` error) -/
 def sourcefileLoop : Nat → List XmlEvent → SrcAcc → Outcome (SrcAcc × List XmlEvent)
   | 0, _, _ => .diverge
-  | fuel + 1, [], acc => sourcefileLoop fuel [] acc
+  | _ + 1, [], _ => .err .parse              -- `Ok(Event::Eof) => return Err(Parse("unexpected end of file"))`
   | fuel + 1, e :: r, acc =>
     match e with
     | .start n a =>
@@ -260,10 +260,10 @@ def sourcefileLoop : Nat → List XmlEvent → SrcAcc → Outcome (SrcAcc × Lis
     | .bad => .err .parse
     | _ => sourcefileLoop fuel r acc
 
-/-- `parse_jacoco_report_method` (no `Eof` arm); the state is `executed` -/
+/-- `parse_jacoco_report_method` (`Eof` ⇒ `Parse` error); the state is `executed` -/
 def methodLoop : Nat → List XmlEvent → Bool → Outcome (Bool × List XmlEvent)
   | 0, _, _ => .diverge
-  | fuel + 1, [], ex => methodLoop fuel [] ex
+  | _ + 1, [], _ => .err .parse              -- `Ok(Event::Eof) => return Err(Parse("unexpected end of file"))`
   | fuel + 1, e :: r, ex =>
     match e with
     | .start n a =>
@@ -284,10 +284,10 @@ def methodLoop : Nat → List XmlEvent → Bool → Outcome (Bool × List XmlEve
     | .bad => .err .parse
     | _ => methodLoop fuel r ex
 
-/-- `parse_jacoco_report_class` (no `Eof` arm) -/
+/-- `parse_jacoco_report_class` (`Eof` ⇒ `Parse` error) -/
 def classLoop (cls : Name) : Nat → List XmlEvent → List (Name × Fn) → Outcome (List (Name × Fn) × List XmlEvent)
   | 0, _, _ => .diverge
-  | fuel + 1, [], fns => classLoop cls fuel [] fns
+  | _ + 1, [], _ => .err .parse              -- `Ok(Event::Eof) => return Err(Parse("unexpected end of file"))`
   | fuel + 1, e :: r, fns =>
     match e with
     | .start n a =>
@@ -343,12 +343,12 @@ def sourceFileOf (a : List Attr) (top : Name) : Name :=
   | .ok f => f
   | .error _ => top ++ sDotJava
 
-/-- `parse_jacoco_report_package` (no `Eof` arm); the state is `results_map` in insertion order
+/-- `parse_jacoco_report_package` (`Eof` ⇒ `Parse` error); the state is `results_map` in insertion order
 (the real order is the `FxHashMap` iteration order: results are compared as sorted lists) -/
 def packageLoop (package : Name) : Nat → List XmlEvent → List (Name × Cov) →
     Outcome (List (Name × Cov) × List XmlEvent)
   | 0, _, _ => .diverge
-  | fuel + 1, [], m => packageLoop package fuel [] m
+  | _ + 1, [], _ => .err .parse              -- `Ok(Event::Eof) => return Err(Parse("unexpected end of file"))`
   | fuel + 1, e :: r, m =>
     match e with
     | .start n a =>
@@ -378,7 +378,7 @@ def packageLoop (package : Name) : Nat → List XmlEvent → List (Name × Cov) 
     | .bad => .err .parse
     | _ => packageLoop package fuel r m
 
-/-- the loop of `parse_jacoco_xml_report`: the only one with an `Eof` arm -/
+/-- the loop of `parse_jacoco_xml_report`: `Eof` ends it normally -/
 def reportLoop : Nat → List XmlEvent → List (Name × Cov) → Outcome (List (Name × Cov))
   | 0, _, _ => .diverge
   | _ + 1, [], res => .ok res
